@@ -1,11 +1,14 @@
 (* C17 — table obligations: facts about ruleset/regexp.go as extracted into
-   Tables.v on this run, each discharged by closed computation. *)
+   Tables.v on this run, each discharged by closed computation.  When the
+   source changes shape exactly the lemma naming that shape stops checking. *)
 From G17 Require Import Model.
 
 (* the rules of a side are evaluated one by one (not joined into one expression) *)
 Lemma ob_rules_evaluated_one_by_one : the_shape = PerRule.
 Proof. vm_compute. reflexivity. Qed.
+(* Inverse() toggles the inversion mark (so that two inversions cancel) *)
 Lemma ob_inverse_toggles : inverse_toggles = true.
 Proof. vm_compute. reflexivity. Qed.
-Lemma ob_exclude_prefix : exclude_prefix = b "-".
+(* list entries are marked as exclusions by a leading '-' *)
+Lemma ob_exclude_prefix : exclude_prefix = [45].
 Proof. vm_compute. reflexivity. Qed.
